@@ -179,12 +179,18 @@ def one_case(rep, cs, seed, i):
     ex = export.Exporter()
     try:
         terms = [f"pcmp {ex.param(p)} {export.ex_tensor(v)}" for p, v in zip(pars, vals)]
+        terms.append(f"pshape_vs {ex.param(par)} {export.ex_nats(list(par.shape))}")
     except export.ExportError as e:
         rep.violation("export-error", str(e), {"case": desc}, found_input=False)
         return
     term = "[" + "; ".join(terms) + "]"
 
     def interp(res, desc=desc, vals=vals):
+        sv, res = res[-1], res[:-1]
+        rep.count(f"coq:pshape_vs={sv}")
+        if sv == 0:
+            rep.violation("parameter-shape-rule:" + desc["chain"][-1], "the shape declared by the symbolic parameter differs from the shape rule of the model "
+                          "(theorem C14_shape_inference: the rule gives the shape of the evaluated tensor)", {"case": desc})
         rep.count(f"coq:pcmp={min(res)}")
         for k, r in enumerate(res):
             if r == 0:
